@@ -573,6 +573,12 @@ def execute(ctx, plan, prop):
         return
     ctx.probe("rest_reached")
 
+    # the recorded finding "ball reserved for ever after a late arrival" (a device at rest holds a ball with
+    # available_balls below its count and nothing queued); its consequences carry the same suffix
+    late_reserved = [d.name for d in devices if d.name in world.late_targets and d.name not in broken
+                     and d.available_balls < d.balls and d.outgoing_balls_handler.is_idle]
+    late_sfx = " after_late_arrival" if late_reserved else ""
+
     # ---- C04 at rest ------------------------------------------------------------------------------------
     for d in devices:
         if d.name in broken:
@@ -587,11 +593,11 @@ def execute(ctx, plan, prop):
     # MPF may legitimately have booked it as the ejected ball coming back; playfield and total are then not judged
     ambiguous = world.ambiguous_reentries > 0
     if pf.balls != loose and not broken and not ambiguous:
-        viol("rest_playfield_count", "entrance_reentry_at_eject_timeout" if world.reentry_at_timeout else "playfield", "at rest playfield.balls=%d but %d ball(s) are loose; world=%r devices=%r"
+        viol("rest_playfield_count", "entrance_reentry_at_eject_timeout" if world.reentry_at_timeout else "playfield" + late_sfx, "at rest playfield.balls=%d but %d ball(s) are loose; world=%r devices=%r"
              % (pf.balls, loose, world.summary(), [(d.name, d.balls) for d in devices]))
     total = sum(d.balls for d in devices) + pf.balls
     if not broken and not ambiguous and (total != m.ball_controller.num_balls_known or total != world.total()):
-        viol("rest_total", "entrance_reentry_at_eject_timeout" if world.reentry_at_timeout else "total", "at rest counts sum to %d, num_balls_known=%d, balls in the world=%d"
+        viol("rest_total", "entrance_reentry_at_eject_timeout" if world.reentry_at_timeout else "total" + late_sfx, "at rest counts sum to %d, num_balls_known=%d, balls in the world=%d"
              % (total, m.ball_controller.num_balls_known, world.total()))
 
     # ---- C05 at rest ------------------------------------------------------------------------------------
@@ -601,6 +607,8 @@ def execute(ctx, plan, prop):
         if starved(d):
             ctx.probe("starved_lane_at_rest")
             continue
+        if any(u in broken for u in upstream(d.name)):
+            continue        # what a source that has given up (broken after max_eject_attempts) still owes is excluded
         if d.available_balls != d.balls or not d.outgoing_balls_handler.is_idle:
             viol("device_not_idle", d.name + (" after_lost_ball_without_spare" if restore_failed[0] else
                                               " after_late_arrival" if d.name in world.late_targets else ""), "at rest %s: balls=%d available_balls=%d outgoing idle=%r"
@@ -608,7 +616,7 @@ def execute(ctx, plan, prop):
     if not broken and pf.available_balls != pf.balls and not plan.get("oversub"):
         src_has = sum(world.count(d.name) for d in devices)
         if pf.available_balls > pf.balls and src_has > 0:
-            viol("request_not_served", "playfield", "at rest playfield is still owed %d ball(s) (available_balls=%d, balls=%d) "
+            viol("request_not_served", "playfield" + late_sfx, "at rest playfield is still owed %d ball(s) (available_balls=%d, balls=%d) "
                  "while %d ball(s) sit in devices %r" % (pf.available_balls - pf.balls, pf.available_balls, pf.balls, src_has,
                                                          [(d.name, d.balls, d.state) for d in devices]))
     # a device with a queued ball request whose upstream devices physically hold a ball: the request could be served
@@ -628,12 +636,12 @@ def execute(ctx, plan, prop):
         in_devices = sum(world.count(d.name) for d in devices) - waiting
         owed = m.game.balls_in_play - loose - waiting
         if owed > 0 and in_devices > 0:
-            viol("request_not_served", "balls_in_play", "game running with balls_in_play=%d but only %d ball(s) loose and %d waiting "
+            viol("request_not_served", "balls_in_play" + late_sfx, "game running with balls_in_play=%d but only %d ball(s) loose and %d waiting "
                  "at a manual plunger while %d ball(s) sit in devices; world=%r"
                  % (m.game.balls_in_play, loose, waiting, in_devices, world.summary()))
     if m.game is not None and not broken and "trough_b" not in topo:
         if m.game.balls_in_play > 0 and loose == 0 and not any(world.count(n) for n in topo["manual"] + topo["locks"]):
-            viol("request_not_served", "ball_in_play", "game running with balls_in_play=%d but no ball is loose and none waits at a "
+            viol("request_not_served", "ball_in_play" + late_sfx, "game running with balls_in_play=%d but no ball is loose and none waits at a "
                  "manual plunger; world=%r" % (m.game.balls_in_play, world.summary()))
     # every physically failed eject was retried or reported
     for e in world.eject_log:
